@@ -1046,9 +1046,9 @@ class PteraTransformer(NodeTransformer):
         )
 
     def visit_match_case(self, node):
-        # The names captured by the pattern are set when the case is taken
-        new_body = []
-
+        # The names captured by the pattern are set when the pattern matches,
+        # before the guard is evaluated: the interactions are the first
+        # things that the guard evaluates
         def captures(pattern):
             # In the order of the source
             for sub in ast.iter_child_nodes(pattern):
@@ -1064,17 +1064,39 @@ class PteraTransformer(NodeTransformer):
                     ast.Name(id=name, ctx=ast.Store()), pattern
                 )
 
+        steps = []
         seen = set()
         for target in captures(node.pattern):
             # The alternatives of an or-pattern capture the same names
-            if target.id not in seen:
+            if target.id not in seen and self.should_instrument(target.id):
                 seen.add(target.id)
-                new_body.extend(self.generate_interactions(target))
-        new_body.extend(self.visit_body(node.body))
+                steps.append(
+                    self.make_interaction(
+                        target,
+                        None,
+                        ast.copy_location(
+                            ast.Name(id=target.id, ctx=ast.Load()), target
+                        ),
+                        orig=target,
+                        expression=True,
+                    )
+                )
+        guard = node.guard and self.visit(node.guard)
+        if steps:
+            guard = ast.Subscript(
+                value=ast.Tuple(
+                    elts=[*steps, guard or ast.Constant(value=True)],
+                    ctx=ast.Load(),
+                ),
+                slice=ast.Constant(value=-1),
+                ctx=ast.Load(),
+            )
+            ast.copy_location(guard, node.pattern)
+            ast.fix_missing_locations(guard)
         return ast.match_case(
             pattern=node.pattern,
-            guard=node.guard and self.visit(node.guard),
-            body=new_body,
+            guard=guard,
+            body=self.visit_body(node.body),
         )
 
     def visit_Lambda(self, node):
